@@ -17,7 +17,7 @@ use soroban_sdk::xdr::ScVal;
 use soroban_sdk::{Address, Env};
 
 const CALLERS: &[&str] = &["deployer", "other-account-same-salt", "deployer-unused-salt", "deployer-no-auth", "deployer-stranger-auth"];
-const CANON: &[&str] = &["registered", "unregistered-token", "payer-no-auth", "payer-stranger-auth"];
+const CANON: &[&str] = &["registered", "unregistered-token", "interchain-token-address", "payer-no-auth", "payer-stranger-auth"];
 const DESTS: &[&str] = &["trusted", "never-trusted", "removed", "hub-chain"];
 const GAS: &[&str] = &["zero", "negative", "one", "balance", "balance+1"];
 const META: &[&str] = &["plain", "multi-byte", "decimals-0", "decimals-255", "decimals-256", "decimals-263", "decimals-u32-max", "empty-name", "empty-symbol", "non-utf8-name", "non-utf8-symbol", "asset-style", "trailing-nul", "only-nul", "interior-nul", "whitespace", "long-name"];
@@ -192,6 +192,9 @@ pub fn run(ctx: &Ctx, rep: &mut Report) {
                 auth = Auth::Only(vec![payer.clone()]);
                 match variant {
                     "unregistered-token" => token_addr = unregistered.addr.clone(),
+                    // a token the service deployed for some deployer: as a canonical token it was
+                    // never registered, and its deployer is not asked here
+                    "interchain-token-address" => token_addr = rng.pick(&locals).3.clone(),
                     _ => {
                         let (a, id) = if focus == "meta" { canon_ids[1].clone() } else { rng.pick(&canon_ids).clone() };
                         token_addr = a;
@@ -395,5 +398,5 @@ pub fn run(ctx: &Ctx, rep: &mut Report) {
     req.extend(META.iter().map(|c| format!("meta:{}", c)));
     rep.notes.insert("required".into(), json!(req));
     rep.notes.insert("token_mode".into(), json!("native"));
-    rep.notes.insert("rule".into(), json!("universes of 24 requests over 2 service-deployed tokens (tree code; plain, multi-byte, 1-character and 255-decimals metadata), a registered asset contract, a registered probe token whose name/symbol/decimals are varied (multi-byte, 0/255/256 decimals, empty name or symbol, non-UTF-8 name, asset-style CODE:ISSUER, trailing / interior / only NUL bytes, surrounding whitespace, 300-byte name) and an unregistered asset: deploy_remote_interchain_token by the deployer, another account reusing the salt, an unused salt, without or with a stranger's authorisation; deploy_remote_canonical_token for registered / unregistered tokens with the payer's, no or a stranger's authorisation; destination in {trusted, never trusted, removed before any use, the usual destination right after its trust was removed (and restored later), the hub chain (trusted in a third of the universes)}; gas in {0, -1, 1, balance, balance+1}. On success the announced payload is compared with the independent encoding built from metadata read from the token; exactly one token_deployment_started; gas_paid for that payload; all balances diffed. distinct = (entry point, variant, destination class, gas class, metadata representable, outcome)"));
+    rep.notes.insert("rule".into(), json!("universes of 24 requests over 2 service-deployed tokens (tree code; plain, multi-byte, 1-character and 255-decimals metadata), a registered asset contract, a registered probe token whose name/symbol/decimals are varied (multi-byte, 0/255/256 decimals, empty name or symbol, non-UTF-8 name, asset-style CODE:ISSUER, trailing / interior / only NUL bytes, surrounding whitespace, 300-byte name) and an unregistered asset: deploy_remote_interchain_token by the deployer, another account reusing the salt, an unused salt, without or with a stranger's authorisation; deploy_remote_canonical_token for registered / unregistered tokens and for the address of a token the service deployed for somebody with the payer's, no or a stranger's authorisation; destination in {trusted, never trusted, removed before any use, the usual destination right after its trust was removed (and restored later), the hub chain (trusted in a third of the universes)}; gas in {0, -1, 1, balance, balance+1}. On success the announced payload is compared with the independent encoding built from metadata read from the token; exactly one token_deployment_started; gas_paid for that payload; all balances diffed. distinct = (entry point, variant, destination class, gas class, metadata representable, outcome)"));
 }
